@@ -4,6 +4,7 @@ package main
 
 import (
 	"fmt"
+	"go/token"
 	"go/types"
 	"strings"
 
@@ -145,7 +146,7 @@ func inlinable(fn *ssa.Function) bool {
 func (f *Frame) mayPanic(st *state, in ssa.Instruction, what string) {
 	u := f.u
 	p := u.fresh("panics", "Bool")
-	if u.safety {
+	if u.safety && !f.recovers() {
 		u.oblige("callpanic", f.fname, st.cur, "false", posStr(u.W.Fset, in.Pos()), "callee "+what+" may panic")
 	}
 	f.panConds = append(f.panConds, and(st.cur, p))
@@ -186,6 +187,9 @@ func (f *Frame) havocCall(v ssa.Value, sig *types.Signature, st *state, heapToo 
 	u := f.u
 	rs := f.resultVals(v, sig, "ret."+v.Name())
 	if heapToo {
+		if in, ok := v.(ssa.Instruction); ok {
+			f.frameCheckAll(st, in, "unknown callee")
+		}
 		st.heap = u.newHeap(&Link{kind: "havoc", parent: st.heap, keep: append([]string{}, f.localRefs...)})
 		u.bumpHV(st.heap, false)
 	}
@@ -217,6 +221,7 @@ func (f *Frame) callByContract(v ssa.Value, in ssa.Instruction, sig *types.Signa
 	}
 	pure := c.Flags["pure"]
 	pre := st.heap
+	st.heap = st.heap.clone()
 	// frame
 	assigns := c.ClausesOf("assigns")
 	switch {
@@ -224,6 +229,7 @@ func (f *Frame) callByContract(v ssa.Value, in ssa.Instruction, sig *types.Signa
 	case len(assigns) == 0 && c.Kind == "extern":
 		// externals without an assigns clause do not touch modelled memory
 	case len(assigns) == 0:
+		f.frameCheckAll(st, in, what)
 		st.heap = u.newHeap(&Link{kind: "havoc", parent: st.heap, keep: append([]string{}, f.localRefs...)})
 		u.bumpHV(st.heap, false)
 	default:
@@ -233,9 +239,21 @@ func (f *Frame) callByContract(v ssa.Value, in ssa.Instruction, sig *types.Signa
 				switch {
 				case item == `\nothing` || item == "nothing":
 				case item == `\fresh` || item == "fresh":
-					st.heap = u.newHeap(&Link{kind: "freshonly", parent: st.heap, top: u.top(st.heap)})
+					st.heap = u.newHeap(&Link{kind: "freshonly", parent: st.heap})
 				case item == `\all`:
+					f.frameCheckAll(st, in, what)
 					st.heap = u.newHeap(&Link{kind: "havoc", parent: st.heap, keep: append([]string{}, f.localRefs...)})
+					u.bumpHV(st.heap, false)
+				case strings.HasPrefix(item, `\after(`):
+					env.heap = pre
+					av, err := env.eval(strings.TrimSuffix(strings.TrimPrefix(item, `\after(`), ")"))
+					if err != nil {
+						u.W.fail("%s:%d: assigns of %s: %v", cl.File, cl.Line, c.Key, err)
+						continue
+					}
+					r := refOf(u, av)
+					f.frameCheckRef(st, in, "", r, "callee "+what+" assigns "+item)
+					st.heap = u.newHeap(&Link{kind: "freshonly", parent: st.heap, top: "(- " + r + " 1)"})
 					u.bumpHV(st.heap, false)
 				default:
 					env.heap = pre
@@ -244,6 +262,7 @@ func (f *Frame) callByContract(v ssa.Value, in ssa.Instruction, sig *types.Signa
 						u.W.fail("%s:%d: assigns of %s: %v", cl.File, cl.Line, c.Key, err)
 						continue
 					}
+					f.frameCheckRef(st, in, l.Arr, l.Key, "callee "+what+" assigns "+item)
 					if l.Arr == "" {
 						// whole struct
 						s := l.Typ.Underlying().(*types.Struct)
@@ -311,6 +330,7 @@ func (f *Frame) inline(v ssa.Value, callee *ssa.Function, args []Val, st *state,
 	u := f.u
 	g := u.newFrame(callee, nil, f.depth+1)
 	g.recoverVal = ""
+	g.frame = f.frame
 	for i, p := range callee.Params {
 		if i < len(args) {
 			g.vals[p] = args[i]
@@ -405,7 +425,7 @@ func (f *Frame) builtin(v ssa.Value, b *ssa.Builtin, c *ssa.CallCommon, st *stat
 		case *types.Slice:
 			f.set(v, "(sl.len "+a.T+")")
 		case *types.Basic:
-			f.set(v, "(str.len "+a.T+")")
+			f.set(v, "(gs.len "+a.T+")")
 		case *types.Map:
 			fn := u.D.Fun("map.len", []string{u.D.SortOf(types.NewMap(t.Key(), types.Typ[types.Bool]))}, "Int")
 			_ = fn
@@ -489,16 +509,16 @@ func (f *Frame) appendOp(v ssa.Value, c *ssa.CallCommon, st *state) {
 	case *types.Slice:
 		addLen = "(sl.len " + y.T + ")"
 		addAt = func(j string) string {
-			return sel(sel(a, "(sl.base "+y.T+")"), "(+ (sl.off "+y.T+") "+j+")")
+			return sel(sel(a, "(sl.base "+y.T+")"), "(sl.at "+y.T+" "+j+")")
 		}
 	default:
-		addLen = "(str.len " + y.T + ")"
-		addAt = func(j string) string { return app("str.at", y.T, j) }
+		addLen = "(gs.len " + y.T + ")"
+		addAt = func(j string) string { return app("gs.at", y.T, j) }
 	}
 	na := u.fresh("app.data", "(Array Int "+es+")")
 	oldLen := "(sl.len " + s.T + ")"
 	// contents: old prefix then new elements (append always modelled as reallocating)
-	u.emit(fmt.Sprintf("(assert (forall ((j Int)) (! (=> (and (<= 0 j) (< j %s)) (= (select %s j) (select (select %s (sl.base %s)) (+ (sl.off %s) j)))) :pattern ((select %s j)))))", oldLen, na, a, s.T, s.T, na))
+	u.emit(fmt.Sprintf("(assert (forall ((j Int)) (! (=> (and (<= 0 j) (< j %s)) (= (select %s j) (select (select %s (sl.base %s)) (sl.at %s j)))) :pattern ((select %s j)))))", oldLen, na, a, s.T, s.T, na))
 	u.emit(fmt.Sprintf("(assert (forall ((j Int)) (! (=> (and (<= 0 j) (< j %s)) (= (select %s (+ %s j)) %s)) :pattern ((select %s (+ %s j))))))", addLen, na, oldLen, addAt("j"), na, oldLen))
 	// common special case: a single appended element
 	if n, ok := f.singleVariadic(c.Args[1]); ok {
@@ -568,6 +588,7 @@ func (f *Frame) runDefers(st *state, recoverVal string) {
 			args = append(args, f.val(a))
 		}
 		g := u.newFrame(callee, nil, f.depth+1)
+		g.frame = f.frame
 		g.recoverVal = recoverVal
 		if recoverVal == "" {
 			g.recoverVal = "(mk-iface 0 0)"
@@ -750,7 +771,7 @@ func (f *Frame) callModSet(c *ssa.CallCommon, mod map[string]bool) {
 	// traces update ghost state
 	for _, tr := range u.W.Traces {
 		if tr.matches(u.W, callee, c) {
-			for _, g := range []string{"$g.clock", "$g.n" + tr.Tag, "$g.t" + tr.Tag, "$g.recv" + tr.Tag, "$g.ret" + tr.Tag, "$g.seq" + tr.Tag} {
+			for _, g := range []string{"$g.clock", "$g.n" + tr.Tag, "$g.t" + tr.Tag, "$g.recv" + tr.Tag, "$g.arg" + tr.Tag, "$g.ret" + tr.Tag, "$g.seq" + tr.Tag} {
 				mod[g] = true
 			}
 		}
@@ -792,8 +813,17 @@ func (f *Frame) callModSet(c *ssa.CallCommon, mod map[string]bool) {
 			case `\all`:
 				mod["*"] = true
 			default:
-				// a location expression: conservatively havoc everything of matching field name
-				mod["*"] = true
+				if strings.HasPrefix(item, `\after(`) {
+					mod["*"] = true
+					continue
+				}
+				// a location expression: the heap array it lives in depends only on types
+				if arr := f.assignsArray(contract, callee, c, item); arr != "" {
+					mod[arr] = true
+					mod["$hv"] = true
+				} else {
+					mod["*"] = true
+				}
 			}
 		}
 	}
@@ -887,7 +917,7 @@ func (f *Frame) enterLoop(b *ssa.BasicBlock, ls *loopState, preds []*ssa.BasicBl
 	mod := f.loopModSet(ls)
 	if mod["*fresh"] && !mod["*"] {
 		// callee writes only fresh memory: arrays keep old contents at old refs
-		heap = u.newHeap(&Link{kind: "freshonly", parent: heap, top: u.top(heap)})
+		heap = u.newHeap(&Link{kind: "freshonly", parent: heap})
 		delete(mod, "*fresh")
 		heap = u.newHeap(&Link{kind: "loop", parent: heap, mod: mod})
 	} else {
@@ -896,6 +926,11 @@ func (f *Frame) enterLoop(b *ssa.BasicBlock, ls *loopState, preds []*ssa.BasicBl
 	for _, phi := range phis {
 		x := u.fresh("loop."+clip(phi.Comment, 16), u.D.SortOf(phi.Type()))
 		u.assumeRange(x, phi.Type())
+		if isRangeIndex(phi) {
+			// go/ssa lowers `range` over a slice/array to an index that starts at -1 and is
+			// incremented once per iteration: -1 <= index is inductive by construction
+			u.emit("(assert (>= " + x + " (- 1)))")
+		}
 		f.vals[phi] = Val{T: x, Typ: phi.Type()}
 		u.wellFormedLoaded(heap, x, phi.Type())
 	}
@@ -1005,4 +1040,127 @@ func splitTop(s string, sep byte) []string {
 	}
 	out = append(out, s[last:])
 	return out
+}
+
+
+// ---------- frame (assigns) obligations of the function under contract ----------
+
+type frameSpec struct {
+	top0   string   // $top at entry: anything above is fresh
+	afters []string // refs: memory at or after these may change
+	locs   []*Loc   // explicit locations
+	all    bool
+}
+
+func refOf(u *Unit, v Val) string {
+	if u.D.SortOf(v.Typ) == "Iface" {
+		return "(if.val " + v.T + ")"
+	}
+	if u.D.SortOf(v.Typ) == "Slice" {
+		return "(sl.base " + v.T + ")"
+	}
+	return v.T
+}
+
+func (f *Frame) frameCheckRef(st *state, in ssa.Instruction, arr, ref, what string) {
+	fs := f.frame
+	if fs == nil || fs.all {
+		return
+	}
+	u := f.u
+	var alts []string
+	if ref != "" {
+		alts = append(alts, "(> "+ref+" "+fs.top0+")")
+		for _, a := range fs.afters {
+			alts = append(alts, "(>= "+ref+" "+a+")")
+		}
+	}
+	for _, l := range fs.locs {
+		if l.Arr == arr || l.Arr == "" {
+			if l.Key == "" && ref == "" {
+				alts = append(alts, "true")
+			} else if l.Key != "" && ref != "" {
+				alts = append(alts, eq(ref, l.Key))
+			}
+		}
+	}
+	u.oblige("frame", f.fname, st.cur, or(alts...), posStr(u.W.Fset, in.Pos()), "write outside the assigns clause: "+what)
+}
+
+func (f *Frame) frameCheckAll(st *state, in ssa.Instruction, what string) {
+	fs := f.frame
+	if fs == nil || fs.all {
+		return
+	}
+	f.u.oblige("frame", f.fname, st.cur, "false", posStr(f.u.W.Fset, in.Pos()), "call with unbounded effects inside a function with an assigns clause: "+what)
+}
+
+
+// recovers: the activation has a deferred closure that calls recover().
+func (f *Frame) recovers() bool {
+	for _, d := range f.defers {
+		if mc, ok := d.call.Call.Value.(*ssa.MakeClosure); ok {
+			if closureRecovers(mc.Fn.(*ssa.Function)) {
+				return true
+			}
+		}
+	}
+	return false
+}
+
+
+// isRangeIndex recognises go/ssa's hidden range index: phi [-1, phi+1].
+func isRangeIndex(phi *ssa.Phi) bool {
+	if phi.Comment != "rangeindex" || len(phi.Edges) != 2 {
+		return false
+	}
+	okInit, okInc := false, false
+	for _, e := range phi.Edges {
+		switch x := e.(type) {
+		case *ssa.Const:
+			if x.Value != nil && x.Value.ExactString() == "-1" {
+				okInit = true
+			}
+		case *ssa.BinOp:
+			if x.Op == token.ADD && x.X == phi {
+				if c, ok := x.Y.(*ssa.Const); ok && c.Value != nil && c.Value.ExactString() == "1" {
+					okInc = true
+				}
+			}
+		}
+	}
+	return okInit && okInc
+}
+
+
+// assignsArray resolves the heap array named by an assigns item of a callee contract,
+// using dummy argument terms (only the types matter).
+func (f *Frame) assignsArray(contract *Contract, callee *ssa.Function, c *ssa.CallCommon, item string) (arr string) {
+	u := f.u
+	defer func() {
+		if r := recover(); r != nil {
+			arr = ""
+		}
+	}()
+	var args []Val
+	if c.IsInvoke() {
+		args = append(args, Val{T: "(mk-iface 0 0)", Typ: c.Value.Type()})
+	}
+	for _, a := range c.Args {
+		args = append(args, Val{T: u.D.Zero(a.Type()), Typ: a.Type()})
+	}
+	env := u.W.calleeEnv(u, contract, callee, c.Signature(), args)
+	env.heap = f.entryHeap
+	env.oldHeap = f.entryHeap
+	if env.heap == nil {
+		return ""
+	}
+	l, err := env.evalLoc(item)
+	if err != nil || l == nil {
+		return ""
+	}
+	if l.Arr == "" {
+		return ""
+	}
+	return l.Arr
 }
